@@ -18,9 +18,10 @@ open Rv Rv.SrcViews
     model's `hardenAllows` does. -/
 theorem harden_eq (method origin site : String) :
     Rv.Generated.Src.harden method origin site = some (Rv.Auth.hardenAllows method origin site) := by
-  unfold Rv.Generated.Src.harden Rv.Auth.hardenAllows
+  simp only [Rv.Generated.Src.harden, Rv.Auth.hardenAllows]
   by_cases h1 : origin = "" <;> by_cases h2 : site = "" <;> by_cases h3 : site = "same-origin" <;>
     by_cases h4 : site = "same-site" <;> by_cases h5 : method = "OPTIONS" <;> simp [h1, h2, h3, h4, h5]
+  all_goals (first | done | ((repeat' split) <;> simp_all))
 
 example : Rv.Generated.Src.harden "OPTIONS" "https://evil.example" "" = some false := by decide
 
